@@ -1,9 +1,12 @@
 package harness
 
 import (
+	"fmt"
 	"os"
+	"runtime"
 	"strconv"
 	"testing"
+	"time"
 )
 
 // TestLab is the single entry point: VERIF_LAB selects the property lab,
@@ -44,5 +47,18 @@ func TestLab(t *testing.T) {
 		t.Fatal("VERIF_OUT not set")
 	}
 	must(os.MkdirAll(out, 0o755))
+	// watchdog on the real clock (outside every synctest bubble): a lab that keeps allocating — a change to the code
+	// under test can turn a bounded loop into an endless one — is stopped before it exhausts the machine
+	go func() {
+		var ms runtime.MemStats
+		for {
+			time.Sleep(500 * time.Millisecond)
+			runtime.ReadMemStats(&ms)
+			if ms.Sys > 8<<30 {
+				fmt.Fprintf(os.Stderr, "harness: lab %s exceeded its memory budget (%d MiB): runaway run\n", name, ms.Sys>>20)
+				os.Exit(3)
+			}
+		}
+	}()
 	fn(labEnv{out: out, seed: seed, tier: tier, t: t})
 }
